@@ -192,6 +192,14 @@ def check_add_multiple(repo, rep):
              ("tail-overlap-partial", 4, 3, 3), ("overlap-longer-than-store", 2, 1, 3), ("overlap-whole-store", 2, 0, 4),
              # older candles that are all stored already (the chunk ends before the last stored candle): replaced, as add_candle does
              ("inner-chunk", 6, 2, 2), ("inner-single", 6, 4, 1), ("head-chunk", 6, 0, 3), ("inner-up-to-the-last-but-one", 6, 3, 2)]
+    # ... and systematically: every store length up to 5, every chunk of 1..4 candles that starts inside or right after the
+    # stored candles (the branches differ by how many of the chunk's candles are stored already: none, some, all but one, all)
+    seen = {(n, first, m) for _, n, first, m in cases}
+    for n in range(0, 6):
+        for first in range(0, n + 1):
+            for m in range(1, 5):
+                if (n, first, m) not in seen:
+                    cases.append((f"stored={n},chunk=[{first},{first + m})", n, first, m))
     for name, n, first, m in cases:
         def mk(dec):
             it = Interp(repo, stubs=W.base_stubs(), decisions=dec)
@@ -216,7 +224,7 @@ def check_add_multiple(repo, rep):
             if probs:
                 rep.violation(rid, f"add_multiple|{name}", f"add_multiple_1m_candles case {name}: " + "; ".join(probs))
             rep.instance(rid, name, {"case": name, "stored_minutes": ts})
-    rep.floor(rid, 4)
+    rep.floor(rid, 60)
 
 
 # ------------------------------------------------------------------ validation in research.backtest
